@@ -172,6 +172,44 @@ def _point(ctx, os_, major, minor, arch, text, cross=True):
         except Exception as e:  # noqa: BLE001
             violation(PROP, "EnvSpec._evaluate_platform", f"raised {type(e).__name__}", {"platform": text, "tag": tag})
     ctx.extra_state["expected"] = None
+    # the platform component of compatibility(): best score over the wheel's (compressed) platform tag set, in
+    # whatever container the caller passes the tags (list, tuple, one-shot iterator, generator)
+    full = [*got, "any"]
+
+    def rank(tag):
+        return len(full) - full.index(tag) if tag in full else None
+
+    rnd = ctx.rnd
+    tagsets = [[t] for t in rnd.sample(got, min(len(got), 3))] + [["any"], ["foreign_tag"]]
+    for _ in range(3):
+        ts = rnd.sample(got, min(len(got), rnd.randint(2, 3)))
+        if rnd.random() < 0.4:
+            ts.insert(rnd.randrange(len(ts) + 1), rnd.choice(["foreign_tag", "any"]))
+        tagsets += [ts, list(reversed(ts))]
+    for ts in tagsets:
+        want = max([x for x in map(rank, ts) if x is not None], default=None)
+        for how, mk in (("list", list), ("tuple", tuple), ("iterator", iter), ("generator", lambda x: (t for t in x))):
+            bump("compatibility-platform-score")
+            ctx.evaluations += 1
+            try:
+                r = spec.compatibility(["py3"], ["none"], mk(ts))
+            except Exception as e:  # noqa: BLE001
+                if how in ("iterator", "generator"):
+                    ctx.shape("diagnostic: one-shot iterable of platform tags raised")
+                    continue
+                violation(PROP, "EnvSpec.compatibility", f"raised {type(e).__name__} with the platform tags passed as {how}",
+                          {"platform": text, "tags": ts, "error": str(e)[:120], "group": "container-raise/" + how})
+                continue
+            got4 = None if r is None else r[3]
+            if got4 != want and how in ("iterator", "generator"):
+                # the parameter is annotated list[str]: a one-shot iterable is outside the contract, so a second pass
+                # over it is a legitimate implementation choice - recorded, never a verdict
+                ctx.shape("diagnostic: one-shot iterable of platform tags scored differently from the list")
+                continue
+            if got4 != want:
+                violation(PROP, "EnvSpec.compatibility", "platform component of the score is not that of the best accepted tag",
+                          {"platform": text, "tags": ts, "passed_as": how, "got": got4, "expected": want,
+                           "group": "platform-score/" + how})
     # oracle vs packaging
     if cross:
         ref = _pkg(os_, major, minor, arch)
